@@ -2,6 +2,7 @@ package checks
 
 import (
 	"fmt"
+	"runtime"
 	"time"
 
 	"verif/bfs"
@@ -255,15 +256,49 @@ func C01(tier string) int {
 		run.HarnessErr = err
 		return run.Finish()
 	}
+	// Phase (iii): the batches of phase (ii) once more with a single processor: util.Scatter then hands a whole batch to
+	// one worker, whereas with more processors than entries every entry has a worker of its own.
+	var ops3 []SOp
+	for _, o := range ops2 {
+		if o.Kind == "atts" || o.Fault == "" && len(o.Ents) == 1 && o.Ents[0].S <= 2 && o.Ents[0].T <= 2 {
+			ops3 = append(ops3, o)
+		}
+	}
+	oldProcs := runtime.GOMAXPROCS(1)
+	st3 := newStats()
+	r3, err := bfs.Explore(bfs.Config[SOp]{
+		NewWorker: func() (bfs.Worker[SOp], error) {
+			w, err := NewSigWorker(3)
+			if err != nil {
+				return nil, err
+			}
+			return &c01Worker{w: w, keys: []int{0, 1}}, nil
+		},
+		Ops:      func(path []SOp) []SOp { return ops3 },
+		Workers:  2,
+		MaxDepth: 2,
+		Budget:   budget,
+		OnViolation: func(path []SOp, v bfs.Viol) {
+			run.Violate(v.Key+":GOMAXPROCS=1", "with GOMAXPROCS=1: "+v.What, map[string]any{"check": "C01", "path": path, "path_text": pathStrings(path), "gomaxprocs": 1})
+		},
+		OnTransition: st3.onTransition,
+	})
+	runtime.GOMAXPROCS(oldProcs)
+	if err != nil {
+		run.HarnessErr = err
+		return run.Finish()
+	}
 	run.Coverage = map[string]any{
-		"states":                        r1.States + r2.States,
-		"transitions":                   r1.Transitions + r2.Transitions,
-		"traces_validated_against_impl": r1.Transitions + r2.Transitions,
-		"evaluations":                   r1.Transitions + r2.Transitions,
+		"two_key_single_processor": map[string]any{"ops_per_state": len(ops3), "states": r3.States, "transitions": r3.Transitions, "depth_completed": r3.DepthDone,
+			"approving_transitions": st3.approvals, "refusing_transitions": st3.refusals, "outcomes": st3.outcomes},
+		"states":                        r1.States + r2.States + r3.States,
+		"transitions":                   r1.Transitions + r2.Transitions + r3.Transitions,
+		"traces_validated_against_impl": r1.Transitions + r2.Transitions + r3.Transitions,
+		"evaluations":                   r1.Transitions + r2.Transitions + r3.Transitions,
 		"distinct_nontrivial":           r1.States + r2.States,
 		"rule":                          "BFS over the real signer stack (signer.Service -> ruler -> locker -> rules -> badger); the alphabet contains, besides single and batch requests in every addressing mode, every batch (and, on two keys, low-epoch singles) served while the store refuses writes, and a history may begin with a record in the old (gob) format standing for a signature released by an older release; a state is (raw records of the keys, set of released attestations); every distinct state is non-trivial; the invariant (no double vote, no surround, unsigned comparison) is evaluated over the released set of every state and every released signature of every new transition is BLS-verified against an independent SSZ signing root",
 		"samples":                       append(st1.samples.List(), st2.samples.List()...),
-		"exhaustive":                    !r1.BudgetHit && !r2.BudgetHit,
+		"exhaustive":                    !r1.BudgetHit && !r2.BudgetHit && !r3.BudgetHit,
 		"single_key_closure": map[string]any{"ops_per_state": len(ops1) + 1, "epochs": fmtU(E), "states": r1.States, "transitions": r1.Transitions,
 			"depth_completed": r1.DepthDone, "frontier_empty": r1.FrontierEmpty, "cap": r1.Capped, "states_by_depth": r1.StatesByDepth,
 			"approving_transitions": st1.approvals, "refusing_transitions": st1.refusals, "outcomes": st1.outcomes},
